@@ -62,8 +62,9 @@ def stepUnstable (cx : Ctx) (rc : Recv) (op : String) (args : List String) (robs
           pure { cx.same with status := "ok", toks := ["sort-contract-violated"] }
         else
           let res : Res (List Nat) :=
-            if byRow then rc.run m sideLimit data (.sortRow (sideGiven p) k)
-            else rc.run m sideLimit data (.sortCol (sideGiven p) k)
+            match sortMethod? op with
+            | some meth => rc.runSort m sideLimit data meth le p k
+            | none => throw .fuel
           match res with
           | .ok d => pure { cx.same with data := d }
           | .error e => pure (cx.fail e)
